@@ -250,13 +250,13 @@ class DiskBackend:
                 used |= {b"/".join(parts[:i]) for i in range(1, len(parts) + 1)}
         return self.packed_names(), dirs - used  # directories with no file anywhere below
 
-    def storage_facts(self, n, final, storage):
+    def storage_facts(self, opkind, n, final, storage):
         packed, dirs = storage
         facts = []
         if final in dirs:
             facts.append("dir-in-the-way")
-        if n != final and n in packed:
-            facts.append("symref-has-packed-entry")
+        if opkind == "add_if_new" and n != final and n in packed:
+            facts.append("symref-has-packed-entry")  # only add_if_new looks the symref's own name up
         return facts
 
     def leftovers(self):
@@ -299,7 +299,7 @@ class DictBackend:
     def storage(self):
         return None
 
-    def storage_facts(self, n, final, storage):
+    def storage_facts(self, opkind, n, final, storage):
         return []
 
     def leftovers(self):
@@ -341,7 +341,7 @@ class ReftableBackend:
     def storage(self):
         return None
 
-    def storage_facts(self, n, final, storage):
+    def storage_facts(self, opkind, n, final, storage):
         return []
 
     def leftovers(self):
@@ -535,7 +535,7 @@ class Run:
             final = self.model.resolve(n)[0][-1] if opkind.startswith(("set-", "add_if_new")) else n
             sit = self.situation(final, tags)
             # storage facts that tell root causes apart (files backend; used for the bucket only)
-            facts = b.storage_facts(n, final, pre_storage)
+            facts = b.storage_facts(opkind, n, final, pre_storage)
             if facts:
                 sit += "," + ",".join(facts)
         # normalised so that c[n]=v / set_if_equals(n, None, v) (and del / remove_if_equals) share buckets
